@@ -161,6 +161,7 @@ def run(ctx):
                     seen.add(line)
                     ctx.problem("monitor", line, "observed on the real handleMessage, history %s (%s)" % (h["id"], h.get("shape")), concrete=True,
                                 replay=P.replay_obj(h, line), key="C04:digest-not-a-function-of-message-fields")
+    __import__("ralverify_common").differential(ctx)   # X11: governance.ral parseAndVerifyVAA translated in full vs the node, on real signatures
     ctx.assumptions = ["Keccak-256: the layout / independence / injectivity theorems hold for every function keccak; C04_digest_is_concrete and the C04_keccak_* theorems are about "
                        "the executable Gallina Keccak-256 of lib/Keccak.v, which is compared INSIDE Coq with go-ethereum crypto.Keccak256 (rows kk) and, through digest keccak256 v, "
                        "with the bytes (*VAA).SigningMsg() returns (every VAA row); that this function is collision resistant is NOT claimed (injectivity is stated for the signing body)",
